@@ -50,6 +50,8 @@ def roundtrip(msgs, enc, blocked, cfg_arg, cfg):
 
 
 def oracle(inp):
+    if not isinstance(inp, dict) or inp.get('kind') not in ('size','many','interleave','ipm-roundtrip'):
+        return None          # unknown input kind (model of another property's unit)
     import random
     rng = random.Random(inp.get('seed', 0))
     cfg = R.packaged()
